@@ -217,7 +217,7 @@ theorem frame_J {r : R} {a : Asm} (hJ : J cfg t fresh ref r a) :
     rw [hcl] at hst hz'; simp only [if_true] at hst hz' ⊢
     by_cases hrem : r.remaining = 0
     · have hx : nextFrameBuf cfg t r fresh = (r, .err .parameter "PolledAfterEndOfImage", fresh) := by
-        unfold nextFrameBuf; rw [if_pos hrem]
+        exact nextFrameBuf_polled cfg t r fresh hst.2.1 hrem
       rw [hx]
       refine ⟨hI, hz, hnp, hfr, ?_⟩
       show (if (a.onFrame (.err .parameter "PolledAfterEndOfImage")).closed then _ else _)
@@ -225,7 +225,8 @@ theorem frame_J {r : R} {a : Asm} (hJ : J cfg t fresh ref r a) :
       rw [this, hcl]; simp only [if_true]; exact hst
     · obtain ⟨s, hy, hIs, ⟨o1, o2, rE, oi, B, hW, hB, hC⟩, _⟩ := hst.next ht hI hrem
       have hx : nextFrameBuf cfg t r fresh = (rE, .frame oi B, B) := by
-        unfold nextFrameBuf; rw [if_neg hrem, hst.1]; simp only [if_true]; rw [hy]; exact hW
+        rw [nextFrameBuf_none cfg t r fresh hst.2.1]
+        unfold nextFrameBuf0; rw [if_neg hrem, hst.1]; simp only [if_true]; rw [hy]; exact hW
       rw [hx] at hz' ⊢
       obtain ⟨lI, _, _, _⟩ := frameInto_leaves cfg ht hIs o1 hW
       refine ⟨lI, hz', hnp, ?_, ?_⟩
